@@ -223,5 +223,77 @@ pub fn report<const V: u32>(name: &str, epoch: u64) {
             })),
         );
     }
+    o = o.json("rp", &refproc_report::<V>());
     ev(o);
+}
+
+/// C06: what the reference processors and the finalizable processor hold at the end of the pause
+/// (ids read from memory, -1 for an entry that is not a plausible object), the kind of pause, and a
+/// walk from the objects that are ready for finalization but not yet popped (they are alive only
+/// because MMTk keeps them). Reports only.
+pub fn refproc_report<const V: u32>() -> String {
+    let m = mmtk::<V>();
+    let snap = mmtk::verif::refproc_snapshot(m);
+    let idof = |o: &ObjectReference| -> i64 {
+        let n = read_node(o.to_raw_address().as_usize());
+        if n.bad {
+            -1
+        } else {
+            (n.id & 0x7fff_ffff) as i64
+        }
+    };
+    let ids = |v: &Vec<ObjectReference>| -> Vec<i64> {
+        let mut x: Vec<i64> = v.iter().map(idof).collect();
+        x.sort();
+        x
+    };
+    let pause = if mmtk::verif::concurrent_work_in_progress(m) {
+        "InitialMark"
+    } else if CONC_AT_STOP.load(Ordering::Relaxed) {
+        "FinalMark"
+    } else {
+        "Full"
+    };
+    let ready_refs: Vec<usize> = snap.ready.iter().map(|o| o.to_raw_address().as_usize()).collect();
+    let w = walk(&ready_refs);
+    let idx_id = |r: usize| -> i64 {
+        if r == 0 {
+            0
+        } else {
+            match w.index.get(&r) {
+                Some(i) => {
+                    let n = &w.nodes[*i - 1];
+                    if n.bad {
+                        -1
+                    } else {
+                        (n.id & 0x7fff_ffff) as i64
+                    }
+                }
+                None => -1,
+            }
+        }
+    };
+    let rnodes = json_array(w.nodes.iter().map(|n| {
+        let o = Obj::raw("").int("id", if n.bad { -1 } else { (n.id & 0x7fff_ffff) as i64 });
+        if n.bad {
+            return o.bool("bad", true).finish();
+        }
+        let first = if n.kind == KIND_REF { 1 } else { 0 };
+        o.int("sz", n.size as i64)
+            .int("h", n.hash)
+            .int("k", n.kind as i64)
+            .ints("f", n.fields.iter().skip(first).map(|f| idx_id(*f)))
+            .finish()
+    }));
+    Obj::raw("")
+        .str("pause", pause)
+        .ints("soft", ids(&snap.tables[0].0))
+        .ints("weak", ids(&snap.tables[1].0))
+        .ints("phantom", ids(&snap.tables[2].0))
+        .ints("pending", snap.tables.iter().map(|t| t.1.len() as i64))
+        .ints("cand", ids(&snap.candidates))
+        .ints("ready", ids(&snap.ready))
+        .int("nidx", snap.nursery_index as i64)
+        .json("rnodes", &rnodes)
+        .finish()
 }
